@@ -49,7 +49,8 @@ Full statement / proved / missing
   `C13_cache_fold_narrow`.
 * the runtime's loaders (`internal/runtime.go`, `rt.lock`): `C13_rt_lockset_ok` / `C13_rt_norace` over the second lock-set
   table (a write needs the lock held exclusively, also through one level of unexported helpers);
-  `C13_rt_systemloader_read_races` — the recorded read of `rt.SystemLoader` after its `Unlock` is a race with `rt.Reset`.
+  `C13_rt_lockset_clean` — no exempted site; `C13_rt_systemloader_read_raced_before_fix` — the read of `rt.SystemLoader`
+  after its `Unlock`, repaired by fix 27da6a6, was a race with `rt.Reset`.
 * file-based loading (`Model/InstantiateOnce.lean`: the lock-table / name-mutex / double-check protocol of
   `fileBasedLoader.instantiate`, including the deletion of the mutex from the table after unlocking):
   `C13_once` — under every interleaving the instantiator of a name runs at most once; `C13_once_bound` — and exactly once
@@ -450,7 +451,7 @@ theorem C13_impl_norace : ∀ a ∈ Pcore.Generated.locksets, ∀ b ∈ Pcore.Ge
   C13_lockset_norace _ C13_lockset_ok
 
 /-- the runtime's lazily created loaders and its settings (`internal/runtime.go`, `rt.lock`): every site of the
-    regenerated table — outside the recorded read of `rt.SystemLoader` — follows the discipline; a WRITE needs the lock held
+    regenerated table — outside the recorded read sites (`knownUnlockedReads`: none since fix 27da6a6) — follows the discipline; a WRITE needs the lock held
     exclusively (`Lock`), so a lazy create-and-store reached under `RLock` — directly or through an unexported helper such as
     `ensureSystemLoader`, whose lock set is the weakest its call sites give — breaks this obligation -/
 theorem C13_rt_lockset_ok : locksetOKExcept knownUnlockedReads Pcore.Generated.rtLocksets = true := by decide
@@ -460,11 +461,18 @@ theorem C13_rt_norace : ∀ a ∈ withoutKnown knownUnlockedReads Pcore.Generate
     ∀ b ∈ withoutKnown knownUnlockedReads Pcore.Generated.rtLocksets, ¬ Race a b :=
   C13_lockset_norace _ C13_rt_lockset_ok
 
-/-- the recorded site IS a race: `rt.SystemLoader` reads `p.systemLoader` after `p.lock.Unlock()`, `rt.Reset` writes it
-    (the full table does not satisfy the discipline) -/
-theorem C13_rt_systemloader_read_races :
-    locksetOK Pcore.Generated.rtLocksets = false ∧
-    ∃ a ∈ Pcore.Generated.rtLocksets, ∃ b ∈ Pcore.Generated.rtLocksets, Race a b ∧ a.fn = "rt.Reset" ∧ b.fn = "rt.SystemLoader" := by
+/-- since fix 27da6a6 no site is exempted: the WHOLE table follows the discipline -/
+theorem C13_rt_lockset_clean : locksetOK Pcore.Generated.rtLocksets = true := by decide
+
+/-- repaired (fix 27da6a6): before it `rt.SystemLoader` returned `p.systemLoader` AFTER `p.lock.Unlock()` — the row the
+    extractor emitted for that read is rejected by the discipline and races with the write of `rt.Reset` (the check run
+    against the pre-fix tree reports the broken obligation and the `lockrace` line names the pair; no schedule can be
+    replayed: there is no instrumented line between the `Unlock` and the `return`) -/
+theorem C13_rt_systemloader_read_raced_before_fix :
+    accessOK { fn := "rt.SystemLoader", field := "rt.systemLoader", write := false, held := [], init := false } = false ∧
+    Race { fn := "rt.Reset", field := "rt.systemLoader", write := true, held := [("lock", .w)], init := false }
+         { fn := "rt.SystemLoader", field := "rt.systemLoader", write := false, held := [], init := false } ∧
+    (∃ a ∈ Pcore.Generated.rtLocksets, a.fn = "rt.Reset" ∧ a.field = "rt.systemLoader" ∧ a.write = true ∧ a.held = [("lock", .w)]) := by
   decide
 
 -- the shape the obligation rejects: the create-and-store of ensureSystemLoader reached with the lock held shared
